@@ -213,6 +213,7 @@ static Q eval_le(const E& e, const std::vector<Q>& vals, const Data& d, std::str
 }
 // optional per-node statistics of a batch of spans: node -> (times reached, times its own constraints all held)
 static std::map<const void*, std::pair<long, long> >* NODE_STATS = 0;
+static std::vector<const void*>* FALSE_CHILDREN_TAKEN = 0;     // non-null false children entered by the current span
 static Span span_tree(const PPL::PIP_Tree_Node* node, const Data& d, const std::vector<long>& pv) {
   Span s;
   std::vector<Q> vals(d.dim);
@@ -244,6 +245,7 @@ static Span span_tree(const PPL::PIP_Tree_Node* node, const Data& d, const std::
     if (const PPL::PIP_Decision_Node* dn = node->as_decision()) {
       const PPL::PIP_Tree_Node* ch = dn->child_node(all);
       if (dn->child_node(true) == 0 && s.defect.empty()) s.defect = "decision node without a true child";
+      if (FALSE_CHILDREN_TAKEN && !all && ch != 0) FALSE_CHILDREN_TAKEN->push_back(ch);
       if (ch == 0) { s.bottom = true; return s; }
       node = ch;
       continue;
@@ -458,6 +460,43 @@ static bool tree_has_dead_condition(const PPL::PIP_Tree_Node* root, const Data& 
   return false;
 }
 
+// Second symptom predicate of the same defect: some decision node has a false child that is entered only by valuations
+// for which the reference finds no point at all (enlarged window, context-satisfying valuations only).  The solver
+// returns a null child for an unfeasible branch, so a non-null false child that serves unfeasible valuations only is the
+// node that was kept by the "SWAP BRANCHES" exit after its own test had been overwritten.
+static bool false_child_only_where_unfeasible(const PPL::PIP_Tree_Node* root, const Data& d) {
+  std::map<const void*, std::pair<long, long> > stats;     // false child -> (valuations entering it, feasible ones among them)
+  std::vector<int> ps; for (int i = 0; i < d.dim; ++i) if (d.is_param(i) && i != d.big) ps.push_back(i);
+  std::vector<long> cur(d.dim, 0); if (d.big >= 0) cur[d.big] = BIG_M[0];
+  long hi = ps.size() <= 2 ? 12 : 6;
+  std::vector<const void*> taken;
+  std::function<void(size_t)> rec = [&](size_t k) {
+    if (k == ps.size()) {
+      RefEntry re = ref_entry(d, cur);
+      if (!re.context_ok) return;
+      taken.clear(); FALSE_CHILDREN_TAKEN = &taken;
+      span_tree(root, d, cur);
+      FALSE_CHILDREN_TAKEN = 0;
+      for (size_t i = 0; i < taken.size(); ++i) { std::pair<long, long>& st = stats[taken[i]]; ++st.first; if (re.feasible) ++st.second; }
+      return;
+    }
+    for (long x = 0; x <= hi; ++x) { cur[ps[k]] = x; rec(k + 1); }
+  };
+  rec(0);
+  for (std::map<const void*, std::pair<long, long> >::iterator i = stats.begin(); i != stats.end(); ++i) if (i->second.first > 0 && i->second.second == 0) return true;
+  return false;
+}
+
+// Last-resort necessary condition of the same defect: the "SWAP BRANCHES" exit can only damage a node when the solver
+// split at least twice on one path, i.e. the tree has two nodes with conditions on one root-to-leaf path.
+static int max_conditions_on_path(const PPL::PIP_Tree_Node* n) {
+  if (n == 0) return 0;
+  int here = n->constraints().begin() != n->constraints().end() ? 1 : 0;
+  const PPL::PIP_Decision_Node* dn = n->as_decision();
+  if (dn == 0) return here;
+  return here + std::max(max_conditions_on_path(dn->child_node(true)), max_conditions_on_path(dn->child_node(false)));
+}
+
 // ------------------------------------------------------------------ the oracle for one solved problem
 struct Reporter {
   std::string input; bool live;
@@ -557,6 +596,8 @@ static bool judge(const PIP& p, int status, const Data& d, const Reporter& rp, c
       int b0 = 0; while (clause[b0].empty()) ++b0;
       if (trig[b0] == "none" && big_with_non_unit_coefficient(d)) trig[b0] = "big_parameter_in_row_with_non_unit_variable_coefficient";
       if (status == 1 && trig[b0] == "none" && clause[b0].compare(0, 5, "tree:") == 0 && tree_has_dead_condition(root, d)) trig[b0] = "tree_node_condition_never_true_when_reached";
+      if (status == 1 && trig[b0] == "none" && clause[b0].compare(0, 5, "tree:") == 0) { RefGuard g; if (false_child_only_where_unfeasible(root, d)) trig[b0] = "false_child_entered_only_where_unfeasible"; }
+      if (status == 1 && trig[b0] == "none" && clause[b0].compare(0, 5, "tree:") == 0 && clause[b0] != "tree:malformed" && max_conditions_on_path(root) >= 2) trig[b0] = "tree_with_nested_conditions";
       rp.viol(site, clause[b0], trig[b0], obs[b0], exp[b0], dt);
       ok = false;
       break;          // one finding per judged problem: the first valuation that fails
@@ -583,7 +624,7 @@ static bool judge(const PIP& p, int status, const Data& d, const Reporter& rp, c
 struct BadList { volatile long long n; long long item[8192], sub[8192]; };
 static BadList* BAD = 0;
 static bool is_bad(long long item, long long sub) { for (long long i = 0; i < BAD->n; ++i) if (BAD->item[i] == item && BAD->sub[i] == sub) return true; return false; }
-struct CrashInfo { volatile int mode, init, n, ops[12]; char desc[1500]; };
+struct CrashInfo { volatile int mode, init, n, ops[12], trig; char desc[1500]; };     // trig: 0 none, 1 max_column, 2 re-solve over a tree
 static CrashInfo* CRASH = 0;
 
 // ------------------------------------------------------------------ mode fresh
@@ -735,6 +776,7 @@ static void run_incr_item(long long item, long long sub_start) {
           if (pool().worker_id >= 0) {
             CrashInfo& ci = CRASH[pool().worker_id]; std::vector<int> h = history_ops(src.rec); h.push_back(opi);
             ci.mode = 1; ci.init = it.init; ci.n = (int)std::min<size_t>(h.size(), 12); for (int q = 0; q < ci.n; ++q) ci.ops[q] = h[q];
+            ci.trig = !solve_like(o.k) ? 0 : nontrivial_tree(*src.p) ? 2 : src.d.piv == 1 ? 1 : 0;
           }
           pool().step(my);
         }
@@ -785,7 +827,8 @@ static void run_incr_item(long long item, long long sub_start) {
               if (nontrivial_tree(*src.p)) { if (fr) r2.override_all = "resolve_over_solution_tree_not_in_initial_basis"; else r2.override_none = "resolve_over_solution_tree_not_in_initial_basis"; }
               if (fr) r2.input = input_json(it.init, src.rec, opi, d1).substr(0, input_json(it.init, src.rec, opi, d1).size() - 1) + ",\"fresh_problem_from_same_data\":\"right\"}";
               // re-judge with reporting; the site tells incremental-only defects apart
-              judge(*c, out.status, d1, r2, fr ? op_site(o.k) + "(incremental)" : op_site(o.k));
+              // "(incremental)": a fresh problem is right AND this object had been solved before
+              judge(*c, out.status, d1, r2, (fr && src.p->current_solution != 0) ? op_site(o.k) + "(incremental)" : op_site(o.k));
               good = false;
             }
           }
@@ -972,7 +1015,9 @@ int main(int argc, char** argv) {
     std::vector<S> seeds = { {2, 2, {3}}, {2, 2, {0}}, {3, 4, {11, 13}}, {2, 1, {1}}, {4, 12, {13, 14}}, {3, 6, {15}}, {2, 2, {5}}, {1, 0, {7}} };
     for (size_t i = 0; i < seeds.size(); ++i) { Init in; in.d.dim = seeds[i].dim; in.d.params = seeds[i].params; in.d.rows = seeds[i].rows; INITS.push_back(in); }
     { Init in; in.d.dim = 0; INITS.push_back(in); }
+    int only_init = atoi(ARGS.opt("--only-init", "-1").c_str());
     for (size_t i = 0; i < INITS.size(); ++i) {
+      if (only_init >= 0 && (int)i != only_init) continue;
       std::unique_ptr<PIP> p = build_fresh(INITS[i].d, true);
       for (size_t o = 0; o < OPS.size(); ++o) if (enabled(OPS[o], INITS[i].d, *p)) ITEMS.push_back(Item{(int)i, (int)o});
     }
@@ -993,7 +1038,9 @@ int main(int argc, char** argv) {
     } else {
       std::vector<std::string> names, idx;
       for (int q = 0; q < ci.n; ++q) { names.push_back(jstr(op_name(OPS[ci.ops[q]]))); idx.push_back(std::to_string(ci.ops[q])); }
-      report_violation("PIP_Problem::solve", clause, "none", J().str("mode", "incremental").num("init", ci.init).raw("init_problem", data_json(INITS[ci.init].d)).arr("history", names).arr("ops", idx).num("item", item).num("sub", sub).done(), signame(sig), "an answer");
+      std::string trig = ci.trig == 2 ? "resolve_over_solution_tree_not_in_initial_basis" : ci.trig == 1 ? "pivot_row_strategy_max_column" : "none";
+      if (ci.trig == 2) clause = "incremental:wrong-answer";
+      report_violation("PIP_Problem::solve", clause, trig, J().str("mode", "incremental").str("failure", sig == SIGALRM ? "hang" : signame(sig)).num("init", ci.init).raw("init_problem", data_json(INITS[ci.init].d)).arr("history", names).arr("ops", idx).num("item", item).num("sub", sub).done(), signame(sig), "an answer");
     }
   };
   limit_memory(6ULL << 30);
@@ -1006,8 +1053,13 @@ int main(int argc, char** argv) {
   bool complete = counter(CNT_SKIPPED) == 0 && counter(CNT_REFCRASH) == 0;
   std::vector<std::string> samples;
   if (mode == "fresh") { for (size_t i = 0; i < FRESH.size(); i += std::max<size_t>(1, FRESH.size() / 3)) samples.push_back(data_json(fresh_data(FRESH[i], (int)(i % 6)))); }
-  else { samples.push_back(J().raw("init_problem", data_json(INITS[0].d)).arr("history", {jstr(op_name(OPS[3])), jstr("solve()"), jstr(op_name(OPS[7])), jstr("solve()")}).done());
-         samples.push_back(J().raw("init_problem", data_json(INITS[n_plain].d)).arr("history", {jstr("solve()"), jstr("add_space_dimensions_and_embed(0, 1)"), jstr(op_name(OPS[11])), jstr("solve()")}).done()); }
+  else {
+    // histories of length DEPTH that the exploration certainly executed (every enabled operation is applied at every depth)
+    std::vector<std::string> h1 = {jstr(op_name(OPS[7])), jstr("solve()"), jstr("add_space_dimensions_and_embed(1, 0)"), jstr("solve()")};
+    std::vector<std::string> h2 = {jstr("solve()"), jstr("add_space_dimensions_and_embed(0, 1)"), jstr(op_name(OPS[11])), jstr("solve()")};
+    h1.resize(std::min<size_t>(h1.size(), DEPTH)); h2.resize(std::min<size_t>(h2.size(), DEPTH));
+    samples.push_back(J().raw("init_problem", data_json(INITS[0].d)).arr("history", h1).done());
+    samples.push_back(J().raw("init_problem", data_json(INITS[n_plain].d)).arr("history", h2).done()); }
   J extra; extra.str("mode", mode).num("items", nitems).num("solves_judged", counter(CNT_SOLVES)).num("tree_spans", counter(CNT_SPANS)).num("reference_tables", counter(CNT_REFS)).num("reference_lexmins", counter(CNT_LEXMINS))
     .num("valuations_skipped_context_violated", counter(CNT_VALS_SKIPPED_CONTEXT)).num("unfeasible_verdicts", counter(CNT_UNFEAS)).num("big_parameter_cases", counter(CNT_BIGCASES))
     .num("artificial_parameters_evaluated", counter(CNT_ARTPARAMS)).num("decision_nodes_traversed", counter(CNT_DECISIONS)).num("fresh_problems", counter(CNT_FRESH))
